@@ -33,6 +33,9 @@ func init() {
 			for _, u := range enum.SeqUnits("bytes", "lex", len(enum.ByteAlphabets["lex"]), l, 2) {
 				us = append(us, core.Unit{Name: u})
 			}
+			for _, u := range enum.SeqUnits("bytes", "punct", len(enum.ByteAlphabets["punct"]), 3, 1) {
+				us = append(us, core.Unit{Name: u})
+			}
 			for _, a := range []string{"paren", "range", "unary", "bool", "cmp", "like"} {
 				k := 6
 				if tier == "thorough" || a == "bool" {
@@ -51,7 +54,7 @@ func init() {
 		},
 		Eval:   c10Eval,
 		Shrink: shrinkFlat,
-		Rule: "TOK(Σ_full,N) ∪ TOK(Σ_k,N_k) ∪ BYTES(B_lex,L) ∪ EDIT(1) of depth-1 trees ∪ FRAME(8 contexts x TOK(Σ_cmp/like/bool,N+1)), each x {no default field, default field D}; " +
+		Rule: "TOK(Σ_full,N) ∪ TOK(Σ_k,N_k) ∪ BYTES(B_lex,L) ∪ EDIT(1) of depth-1 trees ∪ FRAME(10 contexts x TOK(Σ_cmp/like/bool,N+1)), each x {no default field, default field D}; " +
 			"non-trivial = Parse accepted; distinct = distinct accepted trees (by %#v)",
 		Assumptions: []string{"inputs beyond the length bounds are not covered", "a panic is counted as skipped_upstream (C01 owns it)"},
 		Bounds: func(tier string) map[string]any {
@@ -265,7 +268,7 @@ func runFlat(w *core.Worker, unit string, dfs []core.BStr) {
 // flatFrames: contexts in which a short token sequence is embedded, so that what is rejected (or
 // accepted) on its own is also seen as a comparison value, a field's value group, a range bound,
 // an operand of a prefix / suffix / binary operator.
-var flatFrames = []string{"a : > ( %s )", "a : ( %s )", "a : [ %s TO b ]", "NOT ( %s )", "( %s ) AND b", "b OR %s", "a : < = ( ( %s ) )", "+ ( %s ) ~ 2"}
+var flatFrames = []string{"a : > ( %s )", "a : ( %s )", "a : [ %s TO b ]", "NOT ( %s )", "( %s ) AND b", "b OR %s", "a : < = ( ( %s ) )", "+ ( %s ) ~ 2", "( %s ) : > = 5", "( %s ) : < 5"}
 
 func frameUnits(alphas []string, n int) []core.Unit {
 	var us []core.Unit
